@@ -617,8 +617,12 @@ class Generator:
             ends = []
             for k, l in enumerate(lens):
                 s = starts[k] if starts else 0
-                if rng.random() < 0.3 and l > 0:
+                r = rng.random()
+                if r < 0.3 and l > 0:
                     ends.append(-rng.randint(1, l))
+                elif r < 0.4:
+                    # an "open" end beyond the row (it is clamped to the row end), occasionally far beyond
+                    ends.append(l + rng.randint(1, 5) if rng.random() < 0.7 else 2 ** 32 + 1 + rng.randint(0, 3))
                 else:
                     ends.append(rng.randint(s, l))
         self.emit({"op": "rslice", "src": v, "starts": starts, "ends": ends, "dst": self.fresh()}, "rslice")
